@@ -938,6 +938,10 @@ func (s *sim) start(method string, key string, p *simPub, withGcp bool, hasDl bo
 				s.afterOp()
 				return
 			}
+			if c, ok := pr.SubConn.(*simConn); ok && c.replOf != nil && s.prop == "C07" {
+				s.fail("C07.early-takeover", "", "a call was placed on %v, the pending replacement of channel %d, before it became READY: the old connection must keep serving until then", c, c.replOf.id)
+				return
+			}
 			s.fail("C02.unknown-conn", "", "pick returned %v which is not the current connection of any channel", pr.SubConn)
 			return
 		}
